@@ -163,7 +163,64 @@ func (e *Engine) AnalyzeCtx(f *ssa.Function) *FuncAn {
 			}
 		}
 	}
-	if len(entry.facts) == 0 {
+	// element length of a slice-of-slices parameter: at every site the argument has a known element length that is
+	// the value (or the length) of another argument of the same call, or a constant
+	for i, pi := range f.Params {
+		if !isSliceOfSeq(pi.Type()) || (f.Object() != nil && f.Object().Exported()) {
+			continue
+		}
+		var chosen *Lin
+		okAll := len(sites) > 0
+		for si, st := range sites {
+			ai := siteArg(st, f, i)
+			ca := e.AnalyzeCtx(st.Parent())
+			if ai == nil || ca == nil || !ca.Converged {
+				okAll = false
+				break
+			}
+			er := ca.elemLenOf(ai, map[ssa.Value]bool{})
+			if !er.ok || er.any || !ca.elemsStable(ai.Type()) {
+				okAll = false
+				break
+			}
+			// express the caller-side length over the callee's parameters
+			var here *Lin
+			if er.l.IsConst() {
+				k := Konst(er.l.C)
+				here = &k
+			} else {
+				for j, pj := range f.Params {
+					aj := siteArg(st, f, j)
+					if aj == nil || j == i {
+						continue
+					}
+					if _, _, isInt := e.intInfo(pj.Type()); isInt && SameLin(ca.Lin(aj), er.l) {
+						l := a.Lin(pj)
+						here = &l
+						break
+					}
+					if isSeq(pj.Type()) && SameLin(ca.LenOf(aj), er.l) {
+						l := a.LenOf(pj)
+						here = &l
+						break
+					}
+				}
+			}
+			if here == nil || (si > 0 && !SameLin(*chosen, *here)) {
+				okAll = false
+				break
+			}
+			chosen = here
+		}
+		if okAll && chosen != nil {
+			if a.paramElem == nil {
+				a.paramElem = map[*ssa.Parameter]Lin{}
+			}
+			a.paramElem[pi] = *chosen
+			notes = append(notes, "every element of "+pi.Name()+" has length "+chosen.String())
+		}
+	}
+	if len(entry.facts) == 0 && len(a.paramElem) == 0 {
 		a2 := e.Analyze(f)
 		e.ctxFas[f] = a2
 		return a2
